@@ -59,7 +59,19 @@ def write_replay(prop, tier, seed, viol):
 
 def matches_known(kf, violations):
     """A known finding matches when every one of its signature strings occurs in the violation text."""
-    text = json.dumps(violations, ensure_ascii=False)
+    leaves = []
+
+    def walk(x):
+        if isinstance(x, str):
+            leaves.append(x)
+        elif isinstance(x, dict):
+            for v in x.values():
+                walk(v)
+        elif isinstance(x, (list, tuple)):
+            for v in x:
+                walk(v)
+    walk(violations)
+    text = "\n".join(leaves)
     return all(s in text for s in kf.get("signature", []))
 
 
@@ -111,7 +123,7 @@ def cmd_check(args):
         if not out.ok:
             path = write_replay(prop, tier, seed, {"case": case, "violations": out.violations[:5]})
             print("VIOLATION property=%s replay=%s" % (prop, path))
-            print("  " + json.dumps(out.violations[0], ensure_ascii=False)[:1500])
+            print("  " + json.dumps(out.violations[0], ensure_ascii=False)[:400])
             exit_code = 1
     # 3. generated search, sharded
     total = args.examples or mod.TIERS[tier]
@@ -148,6 +160,7 @@ def cmd_check(args):
     evaluations = sum(r["evaluations"] for r in results)
     fps = set()
     labels, sub, excluded = {}, {}, {}
+    cover = {}
     samples = []
     viols = []
     for r in results:
@@ -161,6 +174,8 @@ def cmd_check(args):
         for k, v in r["excluded"].items():
             excluded[k] = excluded.get(k, 0) + v
         samples.extend(r["samples"])
+        for k, v in r.get("cover", {}).items():
+            cover.setdefault(k, set()).update(v)
         if r.get("violation"):
             viols.append(r["violation"])
         if r.get("infra"):
@@ -178,7 +193,7 @@ def cmd_check(args):
             continue
         seen.add(path)
         print("VIOLATION property=%s replay=%s" % (prop, path))
-        print("  " + json.dumps(v["violations"][0], ensure_ascii=False)[:1500])
+        print("  " + json.dumps(v["violations"][0], ensure_ascii=False)[:400])
         exit_code = 1
     if infra and exit_code == 0:
         for m in infra[:5]:
@@ -195,6 +210,7 @@ def cmd_check(args):
             "sub_evaluations": sub,
             "labels": labels,
             "fixed_cases_run": fixed_run,
+            "coverage_sets": {k: {"covered": len(v), "of": getattr(mod, "COVER_TOTALS", {}).get(k)} for k, v in cover.items()},
             "excluded_by_known_finding": excluded,
             "known_findings_reproduced": known_lines,
             "shards": len(results), "shard_seeds": [r["seed"] for r in results],
